@@ -208,7 +208,8 @@ def resolver(
             parameters,
             parameters_metadata or {},
         )
-        _resolvers[owner][alias2] = resolver
+        # (assignment of the whole entry: the registry resets the caches when an entry is set)
+        _resolvers[owner] = {**_resolvers[owner], alias2: resolver}
         if serialized:
             if is_async(func):
                 raise TypeError("Async resolver cannot be used as a serialized method")
